@@ -19,8 +19,13 @@ PROP = Property(
                   "extracted text (default features) of RegistrationEntry::new: Ok ==> proof of possession verified, entry == (vk, stake); KeyRegistration::register_by_entry: Err iff key already registered, on Ok exactly "
                   "this key / entry added and nothing else changes (frame); KeyRegistration::register composes the two",
                   ["RegistrationEntry::new", "RegistrationEntry::get_verification_key_for_concatenation", "RegistrationEntry::get_stake", "KeyRegistration::register_by_entry", "KeyRegistration::register"]),
+        VerusUnit("aggregator_verifier", "verus/C07/aggregator_verifier.tmpl.rs",
+                  "extracted text of mithril-aggregator MithrilSignerRegistrationVerifier::verify: Ok(s) ==> KeyRegWrapper::register accepted, against the round's stake distribution, the request built from the registrant's own key / key "
+                  "signature / opcert with KES evolutions = chain's current KES period - opcert start; s.party_id is the id the registration returned; s.stake == stake_distribution[s.party_id]; key and opcert copied from the registrant",
+                  ["MithrilSignerRegistrationVerifier::verify"]),
     ],
     assumptions=[
+        "aggregator_verifier rewrites: async/.await removed; the stake-distribution iterator expression, the `match party_id.as_str()` on string patterns, `unwrap_or_default() - start` on KES periods and Option/String clones -> contract fns; .with_context removed (the stake lookup's `.with_context(..)?` becomes a match returning Err); strip_cfg future_snark",
         "Ed25519 (dalek), Sum6KES (kes-summed-ed25519) and BLS proof of possession (blst) are assumed sound: callee contracts",
         "OpCert::compute_protocol_party_id = bech32(blake2b-224(cold key)) is a function of the cold key only (hash/encoding libraries: contract); OpCert::compute_message_to_sign's byte layout (array slicing) is a contract, not extracted",
         "std HashMap / HashSet / BTreeSet as mathematical maps / sets (assumed contract on std); the stake distribution map is abstract (StakeMap::get)",
@@ -28,7 +33,7 @@ PROP = Property(
         "extraction rewrites (complete list in the templates): StdResult/StmResult<T> -> Result<T, E>; .with_context(..) removed; closure headers given types and ensures; Err(anyhow!(E)) -> Err(E); `Err(E.into())` -> Err(E); "
         "`a..=b` -> `a..(b + 1)` (Verus has no spec for inclusive ranges; the overflow obligation b + 1 is discharged); `if let Some(&x) = e {` -> `if let Some(r) = e { let x = *r;`; std::cmp::max/min on u64 -> contract fns",
         "SignerRegistrationParameters has no stake field (read off the struct): a registrant cannot supply a stake",
-        "the aggregator-side SignerRegistrationVerifier / leader service (async, stores) is not under contract; it calls KeyRegWrapper::register (read off the source)",
+        "the aggregator-side leader / follower registration services (async, stores) are not under contract; the SignerRegistrationVerifier they call is (unit aggregator_verifier)",
     ],
     explanation="Every conjunct of the registration acceptance rule is a postcondition over uninterpreted cryptographic predicates, proved by Verus on the function text extracted from the working tree in both crates.",
     not_decided=["aggregator-side async registration services", "soundness of the cryptographic primitives"],
